@@ -11,6 +11,8 @@ import (
 	"time"
 
 	flyt "github.com/mark3labs/flyt"
+
+	"verif/harness/internal/quiesce"
 )
 
 // Small dedicated scenarios that need Go types the scripted kinds cannot express: value-type nodes whose value is the
@@ -508,6 +510,54 @@ func runRouteCase(cs *RouteCase) (fs []finding) {
 		if a != b {
 			add("route-differs:panicking-exec", "sequential batch of 3 items (budget %d) whose any-style exec function panics on item 1: given as a constructor option the panic escaped Run: %v, exec calls: %d, post calls: %d, nil error: %v; given through the builder method: escaped %v, exec calls %d, post calls %d, nil error %v", cs.Val, a.escaped, a.calls, a.posts, a.errNil, b.escaped, b.calls, b.posts, b.errNil)
 		}
+	case "post-after-cancel-in-exec":
+		// the context is cancelled inside an exec call that still succeeds: what happens next (post runs / the run's
+		// outcome) is the same for a post function given as constructor option and one given through the builder
+		type outcome struct {
+			posts  int
+			errNil bool
+			action flyt.Action
+		}
+		runForm := func(form string) (o outcome) {
+			ctx, cancel := context.WithCancel(context.Background())
+			defer cancel()
+			exec := func(c context.Context, p any) (any, error) { cancel(); return "made it", nil }
+			post := func(c context.Context, s *flyt.SharedStore, p, e any) (flyt.Action, error) { o.posts++; return "after", nil }
+			var n flyt.Node
+			switch form {
+			case "option":
+				n = flyt.NewNode(flyt.WithExecFuncAny(exec), flyt.WithPostFuncAny(post))
+			case "builder":
+				n = flyt.NewNode().WithExecFuncAny(exec).WithPostFuncAny(post)
+			case "mixed":
+				n = flyt.NewNode(flyt.WithPostFuncAny(post)).WithExecFuncAny(exec)
+			}
+			if cs.Via == "flow" {
+				n = flyt.NewFlow(n)
+			}
+			a, err := flyt.Run(ctx, n, flyt.NewSharedStore())
+			o.errNil, o.action = err == nil, a
+			return o
+		}
+		ref := runForm("builder")
+		for _, form := range []string{"option", "mixed"} {
+			if got := runForm(form); got != ref {
+				add("route-differs:post-after-cancel-in-exec:"+form, "the context is cancelled inside a successful exec call (via %s): with all functions given through builder methods post ran %d times and the run returned (%q, nil error: %v); with the %s form post ran %d times and the run returned (%q, nil error: %v)", cs.Via, ref.posts, ref.action, ref.errNil, form, got.posts, got.action, got.errNil)
+			}
+		}
+	case "exec-form-parallelism":
+		// a concurrent batch whose exec calls all block: however the any-style exec function was handed over, min(c, n)
+		// of them are in flight together
+		for _, form := range []string{"option", "builder", "option-result-style"} {
+			got, incon := formLimitRun(form, cs.Val, 2*cs.Val+1)
+			if incon != "" {
+				add("inconclusive:", "%s", incon)
+				continue
+			}
+			if got != cs.Val {
+				add("route-differs:exec-form-parallelism:"+form, "batch of %d blocking items with concurrency %d, exec function given as %s: %d executions are in flight when nothing moves any more, want %d", 2*cs.Val+1, cs.Val, form, got, cs.Val)
+			}
+		}
 	case "configured-after-wiring":
 		// the budget is (re-)configured AFTER the node has been handed to NewFlow / Connect: the setting in force when the
 		// node runs is the budget — through flyt.Run on the node and through the flow alike
@@ -817,4 +867,57 @@ func orDefaultOnAbsentKeys() (fs []finding) {
 		}
 	}
 	return fs
+}
+
+
+// formLimitRun: see RouteCase "exec-form-parallelism".
+func formLimitRun(form string, cc, n int) (parked int, incon string) {
+	defer setGCOff()()
+	self := quiesce.Self()
+	var st quiesce.Stats
+	var in atomic.Int32
+	release := make(chan struct{})
+	execAny := func(ctx context.Context, v any) (any, error) {
+		in.Add(1)
+		<-release
+		return v, nil
+	}
+	execRes := func(ctx context.Context, it flyt.Result) (flyt.Result, error) {
+		in.Add(1)
+		<-release
+		return it, nil
+	}
+	prep := func(ctx context.Context, s *flyt.SharedStore) ([]flyt.Result, error) {
+		r := make([]flyt.Result, n)
+		for i := range r {
+			r[i] = flyt.NewResult(i)
+		}
+		return r, nil
+	}
+	var bn *flyt.BatchNodeBuilder
+	switch form {
+	case "option":
+		bn = flyt.NewBatchNode(flyt.WithExecFuncAny(execAny), flyt.WithBatchConcurrency(cc)).WithPrepFunc(prep)
+	case "option-result-style":
+		bn = flyt.NewBatchNode(flyt.WithExecFunc(execRes), flyt.WithBatchConcurrency(cc)).WithPrepFunc(prep)
+	default:
+		bn = flyt.NewBatchNode().WithBatchConcurrency(cc).WithExecFuncAny(execAny).WithPrepFunc(prep)
+	}
+	done := make(chan struct{})
+	go func() {
+		defer close(done)
+		_, _ = flyt.Run(context.Background(), bn, flyt.NewSharedStore())
+	}()
+	_, ok := quiesce.Wait(self, quiesceBudget, &st)
+	parked = int(in.Load())
+	close(release)
+	select {
+	case <-done:
+	case <-time.After(60 * time.Second):
+		return parked, "batch did not finish after the executions were released"
+	}
+	if !ok {
+		return parked, "quiescence not reached"
+	}
+	return parked, ""
 }
